@@ -51,7 +51,7 @@ def clientVerify (retr : Nat → Option Cert) (cache : Nat → Option Nat) (fixe
 
 /-- cache entries stem from validated certificates whose content hashes to the key -/
 def CacheInv (cache : Nat → Option Nat) : Prop :=
-  ∀ h ph, cache h = some ph → ∃ x : Cert, x.hash = h ∧ x.contentHashOk = true ∧ Valid LinkCode x
+  ∀ h ph, cache h = some ph → ∃ x : Cert, x.hash = h ∧ x.contentHashOk = true ∧ Valid LinkSpec x
 
 /-- collision freeness of the content hash, at the level of the abstract records -/
 def HashBinding : Prop :=
@@ -60,7 +60,7 @@ def HashBinding : Prop :=
 /-- what phase 2 guarantees about the thing it is asked to verify -/
 def Goal (tv : ToVerify) : Prop :=
   match tv with
-  | .downloaded c => Valid LinkCode c
+  | .downloaded c => Valid LinkSpec c
   | .toDownload _ => True
 
 theorem phase2_sound (retr : Nat → Option Cert) (cache : Nat → Option Nat) (hc : CacheInv cache) (hb : HashBinding) :
@@ -98,7 +98,7 @@ theorem phase2_sound (retr : Nat → Option Cert) (cache : Nat → Option Nat) (
           exact Valid.step c p a b d e f (ih (.downloaded p) h)
 
 theorem phase1_sound (retr : Nat → Option Cert) (cache : Nat → Option Nat) (hc : CacheInv cache) (hb : HashBinding) (se : Nat) :
-    ∀ fuel c, phase1 retr cache true se fuel c = .ok () → Valid LinkCode c := by
+    ∀ fuel c, phase1 retr cache true se fuel c = .ok () → Valid LinkSpec c := by
   intro fuel
   induction fuel with
   | zero => intro c h; simp [phase1] at h
@@ -117,7 +117,7 @@ theorem phase1_sound (retr : Nat → Option Cert) (cache : Nat → Option Nat) (
       · exact Valid.step c p a b d e f (ih p h)
 
 theorem client_sound (retr : Nat → Option Cert) (cache : Nat → Option Nat) (hc : CacheInv cache) (hb : HashBinding) (fuel : Nat) (c : Cert)
-    (h : clientVerify retr cache true fuel c = .ok ()) : Valid LinkCode c :=
+    (h : clientVerify retr cache true fuel c = .ok ()) : Valid LinkSpec c :=
   phase1_sound retr cache hc hb c.epoch fuel c h
 
 /-! the hole in the code as it is (`fixed = false`) -/
